@@ -11,10 +11,12 @@ whatever it passes the event to) never mentions `payload`; its other arguments m
   src/emu/ovni/mark.c   mark_event
   src/emu/ovni/event.c  pre_thread_execute/end/pause/resume/cool/warm, pre_thread, pre_affinity_set,
                         pre_affinity_remote, pre_affinity, pre_cpu, model_ovni_event
-  src/emu/nosv/event.c  create_task, update_task_state, update_task, pre_task
-  src/emu/nanos6/event.c  create_task, update_task_state, update_task, pre_task
-NOT covered: nosv/nanos6 pre_type (memcpy/memchr over the jumbo label), the table-driven `simple` handlers (no
-payload), every other model's handlers.
+  src/emu/nosv/event.c  create_task, update_task_state, update_task, pre_task, pre_type
+  src/emu/nanos6/event.c  create_task, update_task_state, update_task, pre_task, pre_type
+pre_type uses the payload-pointer forms of the core (PAYLOAD_PTRS): &payload->jumbo.data[i] is a byte offset,
+memcpy(&local, p, sizeof local) and memchr(p, c, n) ==/!= NULL are explicit bounds-checked reads, and a payload
+pointer handed to an untranslated callee requires a NUL at or after it inside the payload.
+NOT covered: the table-driven `simple` handlers (no payload), every other model's handlers.
 `G` (translate/gen.py) is injected by the plug-in loader.
 """
 import importlib.util
@@ -32,9 +34,11 @@ UNITS = [
         ("pre_thread", "action"), ("pre_affinity_set", "action"), ("pre_affinity_remote", "action"),
         ("pre_affinity", "action"), ("pre_cpu", "action"), ("model_ovni_event", "action")]),
     ("src/emu/nosv/event.c", [
-        ("create_task", "action"), ("update_task_state", "action"), ("update_task", "action"), ("pre_task", "action")]),
+        ("create_task", "action"), ("update_task_state", "action"), ("update_task", "action"), ("pre_task", "action"),
+        ("pre_type", "action")]),
     ("src/emu/nanos6/event.c", [
-        ("create_task", "action"), ("update_task_state", "action"), ("update_task", "action"), ("pre_task", "action")]),
+        ("create_task", "action"), ("update_task_state", "action"), ("update_task", "action"), ("pre_task", "action"),
+        ("pre_type", "action")]),
 ]
 PREFIX = {"src/emu/nosv/event.c": "nosv_", "src/emu/nanos6/event.c": "nanos6_"}
 
@@ -55,6 +59,7 @@ def gen(work):
     S.SAFE_IF_T = "(cift %s %s)"
     S.SAFE_IF_F = "(ciff %s %s)"
     S.LOG_ARG_CALLS = S.LOG_ARG_CALLS | {"task_get_id"}
+    S.PAYLOAD_PTRS = {"uint8_t *", "char *"}
     ctext, defs = S.translate_files(work, UNITS, prefixes=PREFIX)
     text = (G.HEADER % "src/emu/ovni/event.c, ovni/mark.c, nosv/event.c, nanos6/event.c (unit footprint)") + \
         "From Coq Require Import ZArith List Bool.\n" \
